@@ -9,6 +9,11 @@ import Autog.Lemmas.ComponentsDfs
       and the constants grow by `rightmostX + NodeSpacing` (`C09_collect_cons`; separation: C04_shift_clears_component);
     * `walkDfs` (the machine the components model runs) visits exactly the connectivity class of its start node
       (`C09_component_is_class`).
+    * `C09_collect_is_concat`: the union's result IS the concatenation of every component's own result (`collectComp cfg 0`),
+      translated by the component's shift; `C09_sole_input`: `Layout` of a component's edge list alone returns `collectComp cfg 0 0`
+      of the same final state — under the hypothesis that pre-processing the component's own edge list yields the component the
+      union's pre-processing hands to the pipeline. That hypothesis is a statement about the MODEL only; it is not proved but
+      evaluated by the driver on the model for every union case (key `K:c09-pre`: exact equality of the two graph states).
     Tie: `T:pre` (components of the real code = components of the model, in order), `T:output` (real collection = `collect`),
     `Shared` facts (no package-level state survives from one component to the next). -/
 
@@ -51,5 +56,41 @@ theorem C09_first_component (ord : G → M G) (cfg : Cfg) (g : G) (gs : List G) 
   rw [C09_collect_cons]; simp
 
 theorem C09_component_is_class : type_of% @ComponentsDfs.closed_connected := @ComponentsDfs.closed_connected
+
+/-! ## a component alone and the same component inside a union -/
+
+/-- the shifts `collect` hands out: the right border of every earlier component plus `NodeSpacing` -/
+def shiftsFrom (cfg : Cfg) : Rat → List G → List Rat
+  | _, [] => []
+  | s, g :: gs => s :: shiftsFrom cfg (s + (rightmostX g + cfg.ns)) gs
+
+/-- the result of a union is the concatenation, component after component, of each component's own result (shift 0), translated by
+    its shift -/
+theorem C09_collect_is_concat (cfg : Cfg) : ∀ (gs : List G) (shift : Rat) (ci : Nat),
+    (collect cfg shift ci gs).nodes =
+      ((gs.zip (shiftsFrom cfg shift gs)).zipIdx ci).flatMap (fun p => (translateOut p.1.2 (collectComp cfg 0 p.2 p.1.1)).nodes) ∧
+    (collect cfg shift ci gs).edges =
+      ((gs.zip (shiftsFrom cfg shift gs)).zipIdx ci).flatMap (fun p => (translateOut p.1.2 (collectComp cfg 0 p.2 p.1.1)).edges)
+  | [], _, _ => ⟨rfl, rfl⟩
+  | g :: gs, shift, ci => by
+    obtain ⟨h1, h2⟩ := C09_collect_is_concat cfg gs (shift + (rightmostX g + cfg.ns)) (ci + 1)
+    simp only [C09_collect_cons, shiftsFrom, List.zip_cons_cons, List.zipIdx_cons, List.flatMap_cons, h1, h2,
+      ← C09_component_translated, and_self]
+
+/-- END TO END on the composed model: if pre-processing the component's own edge list gives the component `c` (that is what the
+    driver evaluates, on the model, for every union case: key `K:c09-pre`), then `Layout` of that edge list alone returns exactly
+    `collectComp cfg 0 0` of the SAME final state `layoutComponentP` computes for `c` inside any union — whose contribution to the
+    union's result is, by `C09_collect_is_concat`, that same `collectComp` translated by the component's shift -/
+theorem C09_sole_input (ord : G → M G) (cfg : Cfg) (esc : InEdges) (c : G × List Nat)
+    (hpre : preProcess cfg esc = .ok [c]) :
+    layoutModelP ord cfg esc = (layoutComponentP ord cfg c).map fun gf => collectComp cfg 0 0 gf := by
+  unfold layoutModelP
+  simp only [hpre, bind, Except.bind, List.mapM_cons, List.mapM_nil, pure, Except.pure]
+  cases layoutComponentP ord cfg c with
+  | error e => rfl
+  | ok gf =>
+    simp only [Except.map, collect]
+    congr 1
+    simp [collectComp]
 
 end Autog
